@@ -104,3 +104,28 @@ func (w *Writer) Write(p []byte) (int, error) {
 	w.Buf = append(w.Buf, p...)
 	return n, nil
 }
+
+// RFWriter is a Writer that also implements io.ReaderFrom (like *net.TCPConn or
+// *bytes.Buffer), so that buffered writers take their delegation path.
+type RFWriter struct{ *Writer }
+
+func (w RFWriter) ReadFrom(r io.Reader) (int64, error) {
+	var total int64
+	buf := make([]byte, 512)
+	for {
+		n, err := r.Read(buf)
+		if n > 0 {
+			k, werr := w.Writer.Write(buf[:n])
+			total += int64(k)
+			if werr != nil {
+				return total, werr
+			}
+		}
+		if err == io.EOF {
+			return total, nil
+		}
+		if err != nil {
+			return total, err
+		}
+	}
+}
